@@ -3,6 +3,7 @@ import Pms.Props.Filon
 import Pms.Props.WaveX
 import Pms.Props.Pack
 import Pms.Props.Voropp
+import Pms.Props.Lws
 
 #print axioms Pms.Extra.E_lines_intersection
 #print axioms Pms.Extra.E_lines_parallel
@@ -43,3 +44,6 @@ import Pms.Props.Voropp
 #print axioms Pms.Voropp.E_his_rows
 #print axioms Pms.Voropp.E_his_total
 #print axioms Pms.Voropp.E_his_sorted
+#print axioms Pms.Lws.E_lws_source
+#print axioms Pms.Lws.E_lws_edge
+#print axioms Pms.Lws.E_lws_point
